@@ -168,12 +168,24 @@ def run_one(name, spec, krepo, tier):
     mem_kb = int(os.environ.get('VERIF_KANI_MEM_KB', '20000000'))
     env = dict(os.environ, CARGO_NET_OFFLINE='true', CARGO_TARGET_DIR=os.path.join(os.path.dirname(krepo), 'ktarget-%s' % (feats or 'nofeat')))
     env.pop('RUSTUP_TOOLCHAIN', None)
+    import signal
+    proc = subprocess.Popen(['bash', '-c', 'ulimit -v %d; exec "$@"' % mem_kb, 'kani'] + cmd, cwd=krepo, stdout=subprocess.PIPE, stderr=subprocess.PIPE, text=True, env=env, start_new_session=True)
     try:
-        p = subprocess.run(['bash', '-c', 'ulimit -v %d; exec "$@"' % mem_kb, 'kani'] + cmd, cwd=krepo, capture_output=True, text=True, timeout=timeout, env=env)
+        so, se = proc.communicate(timeout=timeout)
     except subprocess.TimeoutExpired:
+        try:
+            os.killpg(proc.pid, signal.SIGKILL)   # cargo-kani, kani-driver and cbmc are all in this session
+        except Exception:
+            pass
+        proc.communicate()
         r.status, r.infra = 'infra', 'timed out after %ds' % timeout
         r.wall_s = time.time() - t0
         return r
+
+    class _P:
+        pass
+    p = _P()
+    p.stdout, p.stderr, p.returncode = so, se, proc.returncode
     out = p.stdout + '\n' + p.stderr
     r.wall_s = time.time() - t0
     r.raw = out
